@@ -16,6 +16,8 @@ pub mod c03;
 pub mod c04;
 #[cfg(any(feature = "c05", not(kani)))]
 pub mod c05;
+#[cfg(any(feature = "c06", not(kani)))]
+pub mod c06;
 #[cfg(any(feature = "c07", not(kani)))]
 pub mod c07;
 #[cfg(any(feature = "c08", not(kani)))]
